@@ -255,8 +255,11 @@ def dec_shared(t, memo=None):
 
 
 def src(t):
-    """Python source text of a term."""
-    return ast.unparse(ast.fix_missing_locations(ast.Expression(body=dec(t))))
+    """Python source text of a term (for reports; a term with an opaque part is shown as its record)."""
+    try:
+        return ast.unparse(ast.fix_missing_locations(ast.Expression(body=dec(t))))
+    except ValueError:
+        return "<term " + dumps(t)[:400] + ">"
 
 
 def dumps(o):
